@@ -232,6 +232,15 @@ func solveOne(o *Oblig, t *Trans, opt SolveOpts) *Result {
 	return r
 }
 
+// subSec: budget of one sub-query of a path / case split. Sub-queries are easier than the whole; a failing
+// obligation should not cost (number of cases) x (full budget).
+func (o SolveOpts) subSec() int {
+	if o.Tier == "thorough" {
+		return 120
+	}
+	return 25
+}
+
 // splitDischarge tries to prove a query of the form ... (assert (not (=> REACH G))) by cases over the disjuncts
 // of REACH's definition. Returns the number of sub-queries proved and whether all of them were.
 func splitDischarge(query, file string, opt SolveOpts, depth int) (int, bool) {
@@ -269,7 +278,7 @@ func splitDischarge(query, file string, opt SolveOpts, depth int) (int, bool) {
 		sub := query[:i] + "(assert " + p + ")\n" + query[i:]
 		sfile := fmt.Sprintf("%s.split%d_%d.smt2", strings.TrimSuffix(file, ".smt2"), depth, n)
 		os.WriteFile(sfile, []byte(sub), 0o644)
-		v, _, _, _ := raceSolvers([]string{"z3-new", "z3", "cvc5"}, sfile, opt.FullSec)
+		v, _, _, _ := raceSolvers([]string{"z3-new", "z3", "cvc5"}, sfile, opt.subSec())
 		if v == "unsat" {
 			total++
 			continue
@@ -311,7 +320,7 @@ func caseDischarge(query, file string, opt SolveOpts, terms []string) (int, bool
 		sub := query[:i] + b.String() + query[i:]
 		sfile := fmt.Sprintf("%s.case%d.smt2", strings.TrimSuffix(file, ".smt2"), mask)
 		os.WriteFile(sfile, []byte(sub), 0o644)
-		v, _, _, _ := raceSolvers([]string{"z3-new", "z3", "cvc5"}, sfile, opt.FullSec)
+		v, _, _, _ := raceSolvers([]string{"z3-new", "z3", "cvc5"}, sfile, opt.subSec())
 		if v != "unsat" {
 			// a merge point inside the case: path-split it
 			if n, ok := splitDischarge(sub, sfile, opt, 0); v != "sat" && ok {
